@@ -22,7 +22,7 @@ m = {
  "engines": [{"name": "vcheck", "path": "/verif/harness/cmd/vcheck", "serves_properties": sorted(checks),
               "kind_free_text": "Go driver: builds the CLI from /repo's working tree, runs rapid v1.3.0 property tests (package /verif/harness/props) in up to 16 shards seeded from VERIF_SEED, merges evidence, prints VIOLATION / KNOWN-FINDING lines"}],
  "checks": [], "not_applicable": [],
- "notes": "exit 0 = held on everything explored; exit 1 + VIOLATION line = violation with replay file; exit 2 + ERROR line = infrastructure trouble (never a verdict). Known findings: /verif/known_findings.json (never written at run time): 41 fixed (one unguarded `fix:` commit each in /repo, `git -C /repo log --grep ^fix:`; the pinned 236 tests pass after every one), 7 open (D4, D17, D20-D23, D30: a pinned test expects the defective output, or third-party code) which the checks report as KNOWN-FINDING lines and exclude by class predicates evaluated on the failing case. Seeded changes the checks were measured against: /verif/seeded (RESULTS.md), protocol and results in DESIGN.md section 10.",
+ "notes": "exit 0 = held on everything explored; exit 1 + VIOLATION line = violation with replay file; exit 2 + ERROR line = infrastructure trouble (never a verdict). Known findings: /verif/known_findings.json (never written at run time): 45 fixed (one unguarded `fix:` commit each in /repo, `git -C /repo log --grep ^fix:`; the pinned 236 tests pass after every one), 7 open (D4, D17, D20-D23, D30: a pinned test expects the defective output, or third-party code) which the checks report as KNOWN-FINDING lines and exclude by class predicates evaluated on the failing case. Seeded changes the checks were measured against: /verif/seeded (RESULTS.md), protocol and results in DESIGN.md section 10.",
 }
 for i in ids:
     if i in checks:
